@@ -143,7 +143,8 @@ class Run:
         property's text fails on the implementation); False — a proof obligation, the build or the extraction broke;
         None — a correspondence between model and implementation broke (replay_obj names it under "broken"): that is
         not by itself a failing input of the property; finish() decides from what else this run found."""
-        d = os.path.join(VERIF, "work", "replay")
+        # BT_VERIF_REPLAY_DIR: runs against a patched tree (tools/try_seed.sh) keep their replay files to themselves
+        d = os.environ.get("BT_VERIF_REPLAY_DIR") or os.path.join(VERIF, "work", "replay")
         os.makedirs(d, exist_ok=True)
         path = os.path.join(d, "%s_%d_%d.json" % (self.pid, self.seed, len(self.violations)))
         replay_obj = dict(replay_obj)
